@@ -53,11 +53,11 @@ def same_prefix(ctx, rule):
     roles = components(ctx, rule)
     if roles is None:
         return
-    pfx = [l for l in sorted(b.var_names) if any(sh.startswith("Option::unwrap_or(Option::map(utils::find_common_prefix_of_sorted_vec(") for sh, _, _ in q.def_shapes(b, l, {}))]
+    pfx = [l for l in sorted(b.var_names) if any(sh.startswith("Option::map_or(utils::find_common_prefix_of_sorted_vec(") for sh, _, _ in q.def_shapes(b, l, {}))]
     if not ctx.check(len(pfx) == 1, rule, fn, "prefix", "one common-prefix length"):
         return
     d = [sh for sh, _, _ in q.def_shapes(b, pfx[0], roles)]
-    ctx.check(d == ["Option::unwrap_or(Option::map(utils::find_common_prefix_of_sorted_vec(var:Vec<Cow<[&str]>>),%s(slice::len(p1))),0)" % LAM], rule, fn, "prefix:def",
+    ctx.check(d == ["Option::map_or(utils::find_common_prefix_of_sorted_vec(var:Vec<Cow<[&str]>>),0,%s(slice::len(p1)))" % LAM], rule, fn, "prefix:def",
               "the prefix length is the length of the common prefix found by the helper (0 when there is none), with no arithmetic on it", detail=str(d))
     r = dict(roles)
     r[pfx[0]] = "prefix"
@@ -73,8 +73,9 @@ def same_prefix(ctx, rule):
     srt = [q.shape(b.expr_of_call(t), r) for bi, t in b.calls() if q.nice(t.get("callee")) in ("slice::sort_by_key", "slice::sort_unstable_by_key")]
     ctx.check(len(srt) == 1 and q.wild("slice::sort*_by_key(*,%s(*len(p1)))" % LAM, srt[0]), rule, fn, "sorted-by-len", "the lists are ordered by length before the helper runs (it indexes the first as the shortest)", detail=str(srt))
     h = ctx.body(HELP)
-    sl = [q.shape(h.expr_of_call(t)) for bi, t in q.calls_to(h, "Index::index")]
-    ctx.check(sl == ["arg1[0][RangeToInclusive{end:try(var:Option<usize>)}]"], rule, h.path, "prefix-of-first", "the helper returns a leading slice of the first (shortest) list", detail=str(sl))
+    sl = [q.shape(hb.expr_of_call(t)).replace("^", "") for hb in [h] + list(ctx.facts.closures_of(HELP)) for bi, t in q.calls_to(hb, "Index::index")]
+    lead = [x for x in sl if q.wild("arg1[0][RangeToInclusive{end:*}]", x)]
+    ctx.check(len(lead) == 1 and all(x in lead or x == "arg1[0]" for x in sl), rule, h.path, "prefix-of-first", "the helper returns a leading slice of the first (shortest) list", detail=str(sl))
     cmp_ = [q.shape(h.expr_of_call(t)) for bi, t in h.calls() if q.nice(t.get("callee")) in ("PartialEq::ne", "PartialEq::eq")]
     ENUM = "try(Iterator::next(var:Enumerate<Iter<&str>>))"
     ok = len(cmp_) == 1 and cmp_[0] == q.eqs("ne", "slice::get(try(Iterator::next(var:Iter<Cow<[&str]>>)),%s.0)" % ENUM, "Option::Some{0:%s.1}" % ENUM)
